@@ -228,12 +228,20 @@ func c08R5(c *Ctx) {
 		// (b) Add/Done balance
 		constAdds := int64(0)
 		straightGos := 0
+		lenAdd := map[ssa.Instruction]bool{}
 		for _, a := range adds {
 			if inCycle(a.Block()) {
 				continue
 			}
 			n, ok := constInt(a.Call.Args[1])
 			if !ok {
+				// Add(len(xs)) in front of a range over xs in which every trip reaches its go statement
+				if fcs := lenAddCovers(a, closures); len(fcs) > 0 {
+					for _, fc := range fcs {
+						lenAdd[fc.goI] = true
+					}
+					continue
+				}
 				c.bad(fname+"/add", P.InstrPos(a), fname, "WaitGroup.Add with a non-constant count")
 				continue
 			}
@@ -245,7 +253,7 @@ func c08R5(c *Ctx) {
 				continue
 			}
 			// loop: an Add(1) in the same iteration dominates the go statement
-			ok := false
+			ok := lenAdd[fc.goI]
 			for _, a := range adds {
 				if n, isC := constInt(a.Call.Args[1]); isC && n == 1 && inCycle(a.Block()) && dominatesInstr(a, fc.goI) && blockReaches(fc.goI.Block(), a.Block()) {
 					ok = true
@@ -1164,4 +1172,96 @@ func describeInstrOpt(P *Program, in ssa.Instruction) string {
 		return "nothing"
 	}
 	return describeInstr(P, in)
+}
+
+// lenAddCovers: add is `wg.Add(len(xs))` (possibly converted) outside any
+// loop; returned are the go statements that sit in a range loop over the same
+// xs which the Add dominates and in which every trip passes the go statement
+// (its block dominates every source of a back edge of the loop). One Done per
+// element is then owed, as with an Add(1) per trip.
+func lenAddCovers(add *ssa.Call, closures []*fanClosure) []*fanClosure {
+	v := add.Call.Args[1]
+	for d := 0; d < 3; d++ {
+		if cv, ok := v.(*ssa.Convert); ok {
+			v = cv.X
+		}
+	}
+	lc, ok := v.(*ssa.Call)
+	if !ok {
+		return nil
+	}
+	bi, ok := lc.Call.Value.(*ssa.Builtin)
+	if !ok || bi.Name() != "len" {
+		return nil
+	}
+	xs := path(lc.Call.Args[0])
+	var out []*fanClosure
+	for _, fc := range closures {
+		if !fc.inLoop || !dominatesInstr(add, fc.goI) {
+			continue
+		}
+		gb := fc.goI.Block()
+		fn := gb.Parent()
+		// the innermost loop around the go statement
+		var head *ssa.BasicBlock
+		var sources []*ssa.BasicBlock
+		size := -1
+		for _, h := range fn.Blocks {
+			var ts []*ssa.BasicBlock
+			body := map[*ssa.BasicBlock]bool{h: true}
+			for _, t := range h.Preds {
+				if !h.Dominates(t) {
+					continue
+				}
+				ts = append(ts, t)
+				work := []*ssa.BasicBlock{t}
+				for len(work) > 0 {
+					b := work[len(work)-1]
+					work = work[:len(work)-1]
+					if body[b] {
+						continue
+					}
+					body[b] = true
+					work = append(work, b.Preds...)
+				}
+			}
+			if len(ts) > 0 && body[gb] && (size < 0 || len(body) < size) {
+				head, sources, size = h, ts, len(body)
+			}
+		}
+		if head == nil {
+			continue
+		}
+		every := true
+		for _, t := range sources {
+			if !gb.Dominates(t) {
+				every = false
+			}
+		}
+		// the loop ranges over xs: its head compares the range index with len(xs)
+		ranges := false
+		for _, in := range head.Instrs {
+			if c2, ok := in.(*ssa.Call); ok {
+				if b2, ok := c2.Call.Value.(*ssa.Builtin); ok && b2.Name() == "len" && path(c2.Call.Args[0]) == xs {
+					ranges = true
+				}
+			}
+		}
+		for _, p := range head.Preds {
+			if head.Dominates(p) {
+				continue
+			}
+			for _, in := range p.Instrs {
+				if c2, ok := in.(*ssa.Call); ok {
+					if b2, ok := c2.Call.Value.(*ssa.Builtin); ok && b2.Name() == "len" && path(c2.Call.Args[0]) == xs {
+						ranges = true // `for range xs` evaluates len(xs) once, in front of the loop
+					}
+				}
+			}
+		}
+		if every && ranges {
+			out = append(out, fc)
+		}
+	}
+	return out
 }
